@@ -43,7 +43,7 @@ def run_checks(patch: str):
     ev = os.path.join(scratch, '_evidence')
     for p in PROPS:
       c = subprocess.run([os.path.join(ROOT, 'check'), p, '--tier', 'quick', '--repo', scratch, '--evidence-dir', ev], capture_output=True, text=True)
-      if c.returncode != 0:
+      if c.returncode != 0 or 'NOT-DECIDED' in c.stdout:
         rules = []
         for l in c.stdout.splitlines():
           mm = re.match(r'\s+(R-[\w.\-]+) (\S+):(\d+) (\S+)', l)
